@@ -100,13 +100,35 @@ class Func:
         return 'Func(%s)' % self.name
 
 
-class Big:
-    """math/big.Int: magnitude as an unsigned BIG-bit value, sign as a per-path flag (a symbolic sign forks where it is created)"""
-    __slots__ = ('v', 'neg')
+_bigcell = [0]
 
-    def __init__(self, v, neg=False):
+
+class Big:
+    """math/big.Int: magnitude as an unsigned BIG-bit value, sign as a per-path flag (a symbolic sign forks where it is created).
+    `cell` names the backing array: Go copies a big.Int struct shallowly, so every copy of a value shares it, and a mutator applied to
+    one copy (Set, SetBytes, ...) that fits the array writes through to all of them. A constant zero has no array (nil)."""
+    __slots__ = ('v', 'neg', 'cell')
+
+    def __init__(self, v, neg=False, cell='auto'):
         self.v = v
         self.neg = neg
+        if cell == 'auto':
+            zero = z3.is_bv_value(v) and v.as_long() == 0 if z3.is_expr(v) else False
+            if zero:
+                cell = None
+            else:
+                _bigcell[0] += 1
+                cell = _bigcell[0]
+        self.cell = cell
+
+
+def rbig(st, b):
+    """the current value of a big.Int whose backing array may have been written through another copy"""
+    if isinstance(b, Big) and b.cell is not None:
+        o = st.heap.get(('bigcell', b.cell))
+        if o is not None:
+            return Big(o[0], o[1], cell=b.cell)
+    return b
 
     def __repr__(self):
         return 'Big(%s%s)' % ('-' if self.neg else '', self.v)
